@@ -57,6 +57,73 @@ def lat_features(deck):
     return sorted(f)
 
 
+def regular_hexagons(chk, decks, thorough):
+    """C07 'regular hexagons in any orientation' by affine covariance: GenHex decks whose hexagon is an affine
+    image of a regular one (hex_regular_map), rotations replaced by the identity (an exact deck of its own), the
+    whole world mapped by x' = Q A x + o with A making the hexagon regular and Q a general rotation.  The
+    converter sees irrational plane normals and a GQ container; TLC keeps the exact integer deck."""
+    import random
+    import numpy as np
+    from .. import conv, deckrun
+    rng = random.Random(chk.seed + 7)
+    jobs, nd = [], {}
+    for i, d in enumerate(decks):
+        d = adeck.translations_only(adeck.normalise(d))
+        adeck.simple_materials(d)
+        A = adeck.hex_regular_map(d)
+        if A is None:
+            continue
+        o, R = adeck.PHIS[i % len(adeck.PHIS)]
+        A2 = (np.array(R) @ np.array(A)).tolist()
+        mv = adeck.affine_world(d, A2, o)
+        if mv is None:
+            continue
+        d['pts'] = adeck.grid_points(rng, 130, -11, 11)
+        tid = len(jobs) + 1
+        nd[tid] = d
+        jobs.append({'tid': tid, 'deck': d, 'opts': adeck.lattice_opts(d), 'text': adeck.concretise(mv),
+                     'real_points': adeck.affine_points(d['pts'], A2, o)})
+        if len(jobs) >= (3000 if thorough else 300):
+            break
+    records = conv.run_batch(deckrun.run_deck, jobs, chunksize=8)
+    good = []
+    for rec in records:
+        if 'machinery_error' in rec:
+            chk.machinery(rec['machinery_error'])
+        else:
+            good.append(rec)
+    try:
+        verdicts = deckrun.validate(chk, good, nd, 'owner')
+    except tlc.TLCFailure as exc:
+        chk.machinery(str(exc))
+        return
+    byid = {r['tid']: r for r in good}
+    nt = 0
+    for tid, v in sorted(verdicts.items()):
+        rec = byid[tid]
+        if v['nowners'] >= 3:
+            nt += 1
+        for kind, k in v['bad']:
+            if kind == 'baddeck':
+                chk.machinery('regular-hexagon deck is not a partition: %s' % rec['text'])
+                continue
+            if kind not in KINDS:
+                continue
+            err = rec['err']
+            sig = {'clause': kind, 'errtype': err['type'] if err else None, 'where': err['where'] if err else None,
+                   'features': 'regular_hexagon', 'moved': True}
+            chk.violation(sig, {'text': rec['text'], 'opts': rec['opts'], 'error': err, 'deck': nd[tid],
+                                'clauses': 'owner', 'point2': nd[tid]['pts'][k - 1] if k else None,
+                                'note': 'replay re-runs the exact integer deck, not the affine image'})
+    chk.cov['traces_validated_against_impl'] += len(verdicts)
+    chk.cov['evaluations'] += len(verdicts)
+    chk.cov['distinct_nontrivial'] += nt
+    chk.extra['regular_hexagon_decks'] = len(verdicts)
+    chk.assumptions.append('regular hexagons: affine image of the integer deck (irrational normals, general '
+                           'orientation), rotations of the deck replaced by the identity; covariance of the '
+                           'MCNP meaning under affine maps holds for plane-bounded cells and translations')
+
+
 def main(prop='C06', module='GenLat'):
     from .. import replay
     replay.maybe_replay(prop)
@@ -75,7 +142,7 @@ def main(prop='C06', module='GenLat'):
     recs, verdicts, nd, meta = common_univ.run(
         chk, decks, 'owner,compo', chk.seed,
         lambda d, r: [adeck.lattice_opts(d) + [f for f in common_univ.FLAGS if r.random() < 0.3]],
-        npts=130, decorate=lambda d, r: adeck.simple_materials(d), lo=-11, hi=11)
+        npts=130, decorate=lambda d, r: adeck.simple_materials(d), lo=-11, hi=11, moved_every=3)
     chk.cov['traces_validated_against_impl'] = len(verdicts)
     chk.cov['evaluations'] = len(verdicts)
     nt = 0
@@ -92,10 +159,14 @@ def main(prop='C06', module='GenLat'):
                 continue
             err = rec['err']
             sig = {'clause': kind, 'errtype': err['type'] if err else None, 'where': err['where'] if err else None,
-                   'features': '+'.join(feats)}
+                   'features': '+'.join(feats), 'moved': bool(meta[tid].get('moved'))}
             chk.violation(sig, {'text': rec['text'], 'opts': meta[tid]['opts'], 'error': err, 'deck': deck,
                                 'clauses': 'owner,compo', 'point2': deck['pts'][k - 1] if k else None})
     chk.cov['distinct_nontrivial'] = nt
+    if module == 'GenHex':
+        core.lap('final-file validation')
+        regular_hexagons(chk, decks, thorough)
+        core.lap('regular hexagons (affine covariance)')
     # per-pass contracts (Pipeline.tla) on a subset: lattice development, fill, inlining, conversion, pruning
     sub = [nd[t] for t in sorted(nd)][::max(1, len(nd) // (600 if thorough else 150))]
     pipeline.check_decks(chk, sub, lambda d, r: [adeck.lattice_opts(d) + [f for f in common_univ.FLAGS if r.random() < 0.3]],
@@ -108,7 +179,7 @@ def main(prop='C06', module='GenLat'):
                          '(elements / filler cells) own probe points and an index is negative or the fill array is heterogeneous')
     chk.extra['exhaustive'] = False
     chk.assumptions += ['DESIGN.md section 4 convention 5 (positive index across the first-listed surface; first index fastest)',
-                        'unit cells with integer base vectors; lattice placed by signed-permutation motions']
+                        'unit cells with integer base vectors; lattice placed by signed-permutation motions; every third deck also with the whole world moved by a general rigid motion (any orientation: float plane normals, float TR entries)']
     return chk.finish()
 
 
